@@ -13,7 +13,7 @@
    The excess clause ("any excess comes only from donations or the odd unit ...; the only LP tokens held are the
    minimum liquidity") is proved TRANSACTION BY TRANSACTION as exact equalities (theorems C01_excess_through_...): swaps,
    withdrawals, unlocked deposits (first deposit: exactly the minimum liquidity in the LP denom), unlocked single-asset
-   deposits (exactly amount mod 2 in the deposit denom), donations. Not as theorems: the same equalities for routes,
+   deposits (exactly amount mod 2 in the deposit denom), routes, donations. Not as theorems: the same equalities for
    locked deposits and pool creations (monitors mon_C04 / mon_C01x on the implementation).
    Statements only. *)
 From MD.Model Require Import Base Ownable Epoch PoolMath Types PoolManager FarmManager Chain.
@@ -105,8 +105,8 @@ Proof. exact hypotheses_satisfiable_by_a_real_history. Qed.
 
 (* THE EXCESS CLAUSE, transaction by transaction: what the pool manager holds beyond the reported reserves
    (slackP = balance - sum of reserves, per denom) changes by EXACTLY the following amounts — no rounding dust, no stray
-   tokens. Proved for direct swaps, withdrawals, unlocked deposits of two or more assets, unlocked single-asset deposits
-   and plain bank sends; routes, locked deposits and pool creations are covered by the lower bound above and by the
+   tokens. Proved for direct swaps, routes, withdrawals, unlocked deposits of two or more assets, unlocked single-asset deposits
+   and plain bank sends; locked deposits and pool creations are covered by the lower bound above and by the
    monitors mon_C04 / mon_C01x on the implementation. *)
 Theorem C01_excess_through_a_swap : forall w sender funds ask bp ms r pid w',
   sender <> PM ->
@@ -148,6 +148,15 @@ Theorem C01_excess_through_a_single_asset_deposit : forall w sender funds ls ss 
                 + ind (String.eqb PM (addr_or_default w (Some (addr_or_default w r sender)) PM)) (ind (String.eqb (p_lp p) d) shares).
 Proof. exact single_asset_tx_excess. Qed.
 
+(* a route leaves no residue either (fee collector distinct from the pool manager) *)
+Theorem C01_excess_through_a_route : forall w sender funds ops mr r ms w',
+  sender <> PM -> pm_fee_collector (pm_cfg (w_pm w)) <> PM ->
+  run_tx w sender PM (WPm (PmRoute ops mr r ms)) funds = Ok w' ->
+  exists lst out,
+    last (map Some ops) None = Some lst /\
+    forall d, slackP w' d = slackP w d + ind (String.eqb PM (addr_or_default w r sender)) (ind (String.eqb (so_out lst) d) out).
+Proof. exact route_tx_excess. Qed.
+
 (* tokens sent to the contract outside pool operations *)
 Theorem C01_excess_through_a_donation : forall w from amount b',
   from <> PM -> bank_send (w_bank w) from PM amount = Ok b' ->
@@ -169,3 +178,4 @@ Print Assumptions C01_excess_through_a_withdrawal.
 Print Assumptions C01_excess_through_a_deposit.
 Print Assumptions C01_excess_through_a_single_asset_deposit.
 Print Assumptions C01_excess_through_a_donation.
+Print Assumptions C01_excess_through_a_route.
